@@ -25,6 +25,8 @@ CheckParse(e) ==
   /\ Judge("C04", "NoPanic", e.out.t # "panic", e.out, "no panic")
   /\ (IF MustAccept(e.role, e.s) THEN Judge(P, "AcceptExact", OutAP(e.out) = Denotes(e.role, e.s), e.out, Denotes(e.role, e.s))
       ELSE IF MustReject(e.role, e.s) THEN Judge(P, "Reject", e.out.t = "err", e.out, "err")
+      ELSE IF DecimalReading(e.s).t = "ap" /\ e.out.t = "ok"
+        THEN Judge(P, "AcceptedMeansDecimal", OutAP(e.out) = DecimalReading(e.s) /\ PortAllowed(e.role, e.out.port), e.out, DecimalReading(e.s))
       ELSE TRUE)
 \* formatting an address accepted in dotted-quad form and parsing it again returns the same address and port
 CheckFormat(e) ==
